@@ -6,3 +6,12 @@ package credentials
 //@ func credentials.isNativeEndianLittle() (r)
 //@   trusted reads the byte order of the machine through unsafe.Pointer (outside the subset); true on amd64
 //@   pure
+
+//@ func credentials.NewFromPrincipalName(cname, realm) (c)
+//@   pure
+//@   ensures c != nil && fresh(c) && c.cname == cname && c.realm == realm
+
+//@ func (*credentials.Credentials).SetADCredentials(c, a)
+//@   modifies *c, entries(c.attributes), entries(c.groupMembership)
+//@   trusted_frame attribute maps are written through helper methods
+//@   ensures c.cname == old(c.cname) && c.realm == old(c.realm) && c.validUntil == old(c.validUntil) && c.authenticated == old(c.authenticated) && c.authTime == old(c.authTime)
